@@ -179,7 +179,29 @@ func overlayFor(variant string) (string, error) {
 			if err != nil {
 				return "", err
 			}
-			repl[filepath.Join(dir, "scrypt", "scrypt.go")] = filepath.Join(verifDir, "overlays", "scrypt_recorder.go")
+			orig, err := os.ReadFile(filepath.Join(dir, "scrypt", "scrypt.go"))
+			if err != nil {
+				return "", err
+			}
+			tail, err := os.ReadFile(filepath.Join(verifDir, "overlays", "scrypt_recorder.go.tail"))
+			if err != nil {
+				return "", err
+			}
+			src := string(orig)
+			if strings.Count(src, "\nfunc Key(") != 1 {
+				return "", fmt.Errorf("x/crypto/scrypt: func Key not found")
+			}
+			src = strings.Replace(src, "\nfunc Key(", "\nfunc realKey(", 1)
+			for _, imp := range []string{} {
+				if !strings.Contains(src, "\t\""+imp+"\"\n") {
+					src = strings.Replace(src, "import (\n", "import (\n\t\""+imp+"\"\n", 1)
+				}
+			}
+			dst := filepath.Join(bdir, "scrypt.go")
+			if err := os.WriteFile(dst, []byte(src+string(tail)), 0o644); err != nil {
+				return "", err
+			}
+			repl[filepath.Join(dir, "scrypt", "scrypt.go")] = dst
 		case f == "mainhook":
 			root := filepath.Join(verifDir, "harness", "mainhook")
 			ents, _ := os.ReadDir(root)
